@@ -193,6 +193,9 @@ pub struct GitCase {
     pub schema: SchemaSel,
     pub pep440: bool,
     pub flow: bool,
+    /// also run on a shallow clone (`git clone --depth N file://...`) of the repository
+    #[serde(default)]
+    pub shallow: Option<u8>,
 }
 fn check_git(c: &GitCase, cx: &mut Cx) -> Res {
     use crate::gitlab::{Op, Repo};
@@ -203,7 +206,13 @@ fn check_git(c: &GitCase, cx: &mut Cx) -> Res {
             return Ok(());
         }
     };
-    let mut ops = vec![Op::Branch { name: c.branch }, Op::Tag { name: c.tag, annotated: false, at: None }];
+    let mut ops = vec![Op::Branch { name: c.branch }];
+    if c.shallow.is_some() {
+        // history before the tag, so that a clone can be cut off below it and still see the tag
+        ops.push(Op::Commit { time_skew: 0 });
+        ops.push(Op::Commit { time_skew: 0 });
+    }
+    ops.push(Op::Tag { name: c.tag, annotated: false, at: None });
     for _ in 0..c.commits_after {
         ops.push(Op::Commit { time_skew: 0 });
     }
@@ -216,27 +225,49 @@ fn check_git(c: &GitCase, cx: &mut Cx) -> Res {
             return Ok(());
         }
     }
-    let mut args = vec![if c.flow { "flow".to_string() } else { "version".to_string() }, "-C".into(), repo.path()];
-    match &c.schema {
-        SchemaSel::Default => {}
-        SchemaSel::Preset(i) => args.push(format!("--schema={}", if c.flow { zg::PRESETS[*i % 11] } else { zg::PRESETS[*i % 22] })),
-        SchemaSel::Ron(s) => args.push(format!("--schema-ron={}", s.to_ron())),
+    let run_at = |path: &str, cx: &mut Cx, what: &str| -> Res {
+        let mut args = vec![if c.flow { "flow".to_string() } else { "version".to_string() }, "-C".into(), path.to_string()];
+        match &c.schema {
+            SchemaSel::Default => {}
+            SchemaSel::Preset(i) => args.push(format!("--schema={}", if c.flow { zg::PRESETS[*i % 11] } else { zg::PRESETS[*i % 22] })),
+            SchemaSel::Ron(s) => args.push(format!("--schema-ron={}", s.to_ron())),
+        }
+        args.push(format!("--output-format={}", if c.pep440 { "pep440" } else { "semver" }));
+        let o = proc::run(&proc::Spec { args: args.clone(), cwd: Some("/".into()), ..Default::default() });
+        if o.timed_out {
+            infra("zerv -C timed out");
+            return Ok(());
+        }
+        cx.label_if(o.ok(), if what.is_empty() { "succeeded" } else { "succeeded-on-shallow-clone" });
+        if !o.ok() {
+            return Ok(()); // e.g. the tag is not a version: no output is the right outcome (C02/C13)
+        }
+        let text = String::from_utf8(o.stdout.clone()).map_err(|_| Bad::Fail("stdout is not UTF-8".into()))?;
+        let line = text.strip_suffix('\n').ok_or_else(|| Bad::Fail(format!("{what}stdout {text:?} does not end with a newline")))?;
+        cx.note(|| format!("{what}{args:?} -> {line}"));
+        check_body(line, c.pep440, !matches!(c.schema, SchemaSel::Ron(_))).map_err(|e| match e {
+            Bad::Fail(m) => Bad::Fail(format!("{what}{m} (args {args:?})")),
+            other => other,
+        })
+    };
+    cx.nt_if(!crate::gitlab::BRANCHES[c.branch % 10].chars().all(|ch| ch.is_ascii_alphanumeric()) || c.shallow.is_some());
+    run_at(&repo.path(), cx, "")?;
+    if let Some(depth) = c.shallow {
+        let clone = format!("{}-shallow", repo.path());
+        let _ = std::fs::remove_dir_all(&clone);
+        let mut cmd = std::process::Command::new("git");
+        crate::gitlab::git_env(&mut cmd);
+        let ok = cmd.current_dir("/").args(["clone", "-q", "--depth", &depth.max(1).to_string(), &format!("file://{}", repo.path()), &clone]).status().map(|s| s.success()).unwrap_or(false);
+        if !ok {
+            let _ = std::fs::remove_dir_all(&clone);
+            infra("git clone --depth failed in the harness");
+            return Ok(());
+        }
+        let r = run_at(&clone, cx, "[shallow clone] ");
+        let _ = std::fs::remove_dir_all(&clone);
+        r?;
     }
-    args.push(format!("--output-format={}", if c.pep440 { "pep440" } else { "semver" }));
-    let o = proc::run(&proc::Spec { args: args.clone(), cwd: Some("/".into()), ..Default::default() });
-    if o.timed_out {
-        infra("zerv -C timed out");
-        return Ok(());
-    }
-    cx.label_if(o.ok(), "succeeded");
-    if !o.ok() {
-        return Ok(()); // e.g. the tag is not a version: no output is the right outcome (C02/C13)
-    }
-    let text = String::from_utf8(o.stdout.clone()).map_err(|_| Bad::Fail("stdout is not UTF-8".into()))?;
-    let line = text.strip_suffix('\n').ok_or_else(|| Bad::Fail(format!("stdout {text:?} does not end with a newline")))?;
-    cx.nt_if(!crate::gitlab::BRANCHES[c.branch % 10].chars().all(|ch| ch.is_ascii_alphanumeric()));
-    cx.note(|| format!("{args:?} -> {line}"));
-    check_body(line, c.pep440, !matches!(c.schema, SchemaSel::Ron(_)))
+    Ok(())
 }
 
 #[derive(Debug, Clone, Hash, Serialize, Deserialize)]
@@ -263,7 +294,7 @@ pub fn property() -> Property {
         (80, 1_200),
         |_| {
             (0usize..10, 0usize..22, 0u8..3, any::<bool>(), prop_oneof![2 => Just(SchemaSel::Default), 3 => (0usize..22).prop_map(SchemaSel::Preset), 2 => zg::valid_schema().prop_map(SchemaSel::Ron)], any::<bool>(), prop::bool::weighted(0.3))
-                .prop_map(|(branch, tag, commits_after, dirty, schema, pep440, flow)| GitCase { branch, tag, commits_after, dirty, schema, pep440, flow })
+                .prop_map(|(branch, tag, commits_after, dirty, schema, pep440, flow)| GitCase { branch, tag, commits_after, dirty, schema, pep440, flow, shallow: if (branch + tag) % 3 == 0 { Some(1 + ((branch * 7 + tag + commits_after as usize) % 4) as u8) } else { None } })
                 .boxed()
         },
         check_git,
